@@ -113,6 +113,36 @@ def main():
                 ev.append({"e": "Raise", "what": type(ex).__name__ + ": " + str(ex)[:80]})
         for i in range(0, len(ev), 100):
             traces.append({"tid": f"y{len(traces)}", "hdr": {"kind": "params:" + cname}, "ev": ev[i:i + 100]})
+    # ---- declared domains: the constraint attached to every parameter, probed below / at / above its bound --------------
+    # (kind, bound) as declared in the parameter classes: pos = ">= 0", spos = "> 0", slt = "< bound"
+    declared = {
+        "HEM": dict(sigma=("pos", 0), p=("spos", 0), eta1=("spos", 0), eta2=("spos", 0), intensity=("pos", 0)),
+        "VG": dict(sigma=("pos", 0)),
+        "CGMY": dict(c=("spos", 0), g=("pos", 0), m=("pos", 0), y=("slt", 2)),
+        "MERTON": dict(sigma=("pos", 0), mu_j=("pos", 0), sigma_j=("spos", 0), intensity=("pos", 0)),
+        "BS": dict(sigma=("pos", 0)),
+    }
+    for cname, (pcls, ecls, start, choices) in classes.items():
+        ev = []
+        for field, (kind, bound) in declared[cname].items():
+            for tenths in (-5, -1, 0, 1, 5):
+                v = bound + tenths / 10.0
+                for where in ("assign", "construct"):
+                    try:
+                        if where == "assign":
+                            obj = pcls(**start)
+                            setattr(obj, field, v)
+                            ok = getattr(obj, field) == v
+                        else:
+                            pcls(**dict(start, **{field: v}))
+                            ok = True
+                    except ValueError:
+                        ok = False
+                    except Exception:
+                        ok = True          # accepted by the constraint; what the model makes of the value is another matter
+                    ev.append({"e": "Domain", "field": field, "ckind": kind, "bound10": int(bound * 10), "v10": int(round(v * 10)),
+                               "where": where, "accepted": bool(ok)})
+        traces.append({"tid": f"y{len(traces)}", "hdr": {"kind": "domain:" + cname}, "ev": ev})
     # ---- calibration contract ------------------------------------------------------------------------------------
     from harness.models import exp_models
     from rpylib.model.utils import default_calibration, run_default_calibration, create_exponential_of_levy_model, ModelType
